@@ -2458,6 +2458,96 @@ theorem batch_first_attempt_owns_token (rc : RCluster) (cfg : Config) (p : Prepa
   exact session_first_attempt_owns_token rc cfg { p with lwt := false } values ex ρp ρf draw wire comps hpk hne hnd
     hlt hv hbound hsmall r hr hwf haware hring pools hreach hnode
 
+open ScyllaVerif.Props.C05 in
+/-- **Tablet tables through the Session glue** (`Session::execute`; the pager's literals are the same function): for a
+prepared statement with all key components bound on a table the tablet map knows (`tabletsOf rc r = some xs`), the
+routing info carries the statement's table spec, so the request is routed by the TABLET map and not by the ring: with
+`V dc` = the replicas of the tablet covering the servers' token of the key (all, or those of datacenter `dc`), for
+every cluster, configuration, refiller history and ALL random choices the first attempt goes to a live replica OF THAT
+TABLET (a preferred-datacenter one when one is live) carrying the shard the TABLET names for it, on a connection the
+server bound to that shard whenever the node's pool holds one. (A statement whose routing info lost its table would have
+`tabletsOf = none` and be routed by the ring replicas: that is the difference this theorem pins.) -/
+theorem session_first_attempt_tablet (rc : RCluster) (cfg : Config) (p : PreparedM)
+    (values : List PartitionKey.RawValue) (ex : ExecM) (ρp : RhoPick) (ρf : RhoFb) (draw : Nat)
+    (wire : List Nat) (comps : List (List UInt8)) (hpk : p.pk = PartitionKey.pkIndexesOfWire wire)
+    (hne : wire ≠ []) (hnd : wire.Nodup) (hlt : ∀ ix ∈ wire, ix < values.length) (hv : values.length ≤ 65535)
+    (hbound : C03.keyOf wire values = comps.map some) (hsmall : 2 ≤ comps.length → ∀ c ∈ comps, c.length ≤ 65535)
+    (r : RRequest)
+    (hr : r = ⟨⟨ex.consistency, some (serverToken p.cdc comps), p.table.map (·.1), p.lwt, ex.pref⟩,
+      (p.table.map (·.2)).getD 0⟩)
+    (hwf : WF (rc.toCluster r.rq.token)) (haware : tokenAware (rc.toCluster r.rq.token) cfg r.rq = true)
+    (xs : List Tablets.Tablet) (htab : tabletsOf rc r = some xs) :
+    let tok := serverToken p.cdc comps
+    let first := sessionFirstAttempt rc cfg p values ex ρp ρf draw
+    let cl := rc.toCluster (some tok)
+    let V := tabletReplicas rc xs tok
+    let good := fun (a : Attempt) (L : List Target) =>
+      (a.node, some a.shard) ∈ L ∧
+      ∀ (size : PoolSize) (evts : List PoolEvt) (rf : Refiller) (pc : PoolConns),
+        (Refiller.init size).run evts = some rf → rf.shared = some pc → ConnectionOk pc a.shard
+    (∀ d, (preference cfg r.rq).datacenter = some d → liveTargetsT cl V (.dc d) ≠ [] →
+      ∃ a, first = some a ∧ good a (liveTargetsT cl V (.dc d))) ∧
+    (((preference cfg r.rq).datacenter = none ∨ cfg.failover = true) → liveTargetsT cl V .any ≠ [] →
+      ∃ a, first = some a ∧
+        (good a (liveTargetsT cl V .any) ∨
+          ∃ d, (preference cfg r.rq).datacenter = some d ∧ good a (liveTargetsT cl V (.dc d)))) := by
+  intro tok first cl V good
+  obtain ⟨_, hfirst, _, _⟩ := session_routing_info_spec p values ex wire comps hpk hne hnd hlt hv hbound hsmall
+  have htok : r.rq.token = some tok := by rw [hr]
+  have key := route_first_attempt rc cfg r ρp ρf draw hwf haware
+  have hf : first = firstAttempt rc (routePlan rc cfg r ρp ρf) draw := by
+    show sessionFirstAttempt rc cfg p values ex ρp ρf draw = _
+    rw [hfirst rc cfg ρp ρf draw, hr]
+  simp only [liveReplicaTargets, htab, htok, Option.getD_some] at key
+  rw [hf]
+  exact key
+
+open ScyllaVerif.Props.C05 in
+/-- **Batches on tablet tables**: a batch whose first statement is prepared on a table the tablet map knows is routed
+as `execute(first statement, first row)` with the LWT flag cleared, hence by the tablet covering the FIRST statement's
+token: the conclusion of `session_first_attempt_tablet` for `batchFirstAttempt`. -/
+theorem batch_first_attempt_tablet (rc : RCluster) (cfg : Config) (p : PreparedM) (rest : List BatchStmtM)
+    (values : List PartitionKey.RawValue) (ex : ExecM) (ρp : RhoPick) (ρf : RhoFb) (draw : Nat)
+    (wire : List Nat) (comps : List (List UInt8)) (hpk : p.pk = PartitionKey.pkIndexesOfWire wire)
+    (hne : wire ≠ []) (hnd : wire.Nodup) (hlt : ∀ ix ∈ wire, ix < values.length) (hv : values.length ≤ 65535)
+    (hbound : C03.keyOf wire values = comps.map some) (hsmall : 2 ≤ comps.length → ∀ c ∈ comps, c.length ≤ 65535)
+    (r : RRequest)
+    (hr : r = ⟨⟨ex.consistency, some (serverToken p.cdc comps), p.table.map (·.1), false, ex.pref⟩,
+      (p.table.map (·.2)).getD 0⟩)
+    (hwf : WF (rc.toCluster r.rq.token)) (haware : tokenAware (rc.toCluster r.rq.token) cfg r.rq = true)
+    (xs : List Tablets.Tablet) (htab : tabletsOf rc r = some xs) :
+    let tok := serverToken p.cdc comps
+    let first := batchFirstAttempt rc cfg (.prepared p :: rest) (some values) ex ρp ρf draw
+    let cl := rc.toCluster (some tok)
+    let V := tabletReplicas rc xs tok
+    let good := fun (a : Attempt) (L : List Target) =>
+      (a.node, some a.shard) ∈ L ∧
+      ∀ (size : PoolSize) (evts : List PoolEvt) (rf : Refiller) (pc : PoolConns),
+        (Refiller.init size).run evts = some rf → rf.shared = some pc → ConnectionOk pc a.shard
+    (∀ d, (preference cfg r.rq).datacenter = some d → liveTargetsT cl V (.dc d) ≠ [] →
+      ∃ a, first = some a ∧ good a (liveTargetsT cl V (.dc d))) ∧
+    (((preference cfg r.rq).datacenter = none ∨ cfg.failover = true) → liveTargetsT cl V .any ≠ [] →
+      ∃ a, first = some a ∧
+        (good a (liveTargetsT cl V .any) ∨
+          ∃ d, (preference cfg r.rq).datacenter = some d ∧ good a (liveTargetsT cl V (.dc d)))) := by
+  intro tok first cl V good
+  have hf : first = sessionFirstAttempt rc cfg { p with lwt := false } values ex ρp ρf draw := by
+    show batchFirstAttempt rc cfg (.prepared p :: rest) (some values) ex ρp ρf draw = _
+    unfold batchFirstAttempt sessionFirstAttempt batchRoutingInfo sessionRoutingInfo
+    simp only [List.head?_cons]
+  rw [hf]
+  exact session_first_attempt_tablet rc cfg { p with lwt := false } values ex ρp ρf draw wire comps hpk hne hnd
+    hlt hv hbound hsmall r hr hwf haware xs htab
+
+-- non-vacuity / the difference the two tablet theorems pin: `exTabRq` (table 1 of `exRC`, token 150) is routed by the
+-- tablet map - first attempt node 3 on the TABLET's shard 1; the same request with the table spec lost is not in the
+-- tablet map (and, its keyspace unknown, not token-aware at all); the ring shard of token 150 on node 3 would be 2
+example : tabletsOf exRC exTabRq = some exTablets ∧
+    firstAttempt exRC (routePlan exRC C05.exCfg exTabRq C05.ρp1 C05.ρf1) 7 = some ⟨⟨3, some 0, some 3⟩, 1⟩ ∧
+    tabletsOf exRC ⟨{ exTabRq.rq with table := none }, 0⟩ = none ∧
+    tokenAware (exRC.toCluster (some 150)) C05.exCfg { exTabRq.rq with table := none } = false ∧
+    computedShard (exRC.sharder 3) 150 = 2 := by decide
+
 -- a batch whose first statement is NOT prepared, an empty batch, a batch without a first row of values: no token, and
 -- (unprepared / empty) no table - the request is not token-aware, any node may get it (definitional; driven by the
 -- `e2e route ... api=b bfirst=u` cases, which only demand that the BATCH frames arrive)
